@@ -45,7 +45,13 @@ def gen_random(rng, N):
     T = rng.uniform(0, 4, N) * Fmax
     T = np.where(u < 0.15, -O.loguniform(rng, 1e-3, 100, N) * Fmax, T)
     T = np.where(u > 0.85, (4 + O.loguniform(rng, 1e-3, 100, N)) * Fmax, T)
+    # "any demand": a few percent of the thrust demands are astronomically out of range (1e2 .. 1e18 times F_max, both signs);
+    # the range limit is exact for them as well
+    far = rng.random(N) < 0.06
+    T = np.where(far, rng.choice([-1.0, 1.0], N) * O.loguniform(rng, 1e2, 1e18, N) * Fmax, T)
     mag = O.loguniform(rng, 1e-7, 10, (N, 3)) * (2 * l * Fmax)[:, None]
+    farm = rng.random(N) < 0.03
+    mag = np.where(farm[:, None], O.loguniform(rng, 10, 1e15, (N, 3)) * (2 * l * Fmax)[:, None], mag)
     M = mag * rng.choice([-1.0, 1.0], (N, 3))
     M[rng.random(N) < 0.05] = 0.0
     M[:, 2] *= (Cm / l) * rng.choice([0.0, 1.0, 1.0], N)  # yaw moments live on the Cm scale
